@@ -326,6 +326,20 @@ pub fn run_search<P: Prop + 'static>(prop: Arc<P>, tier: Tier, seed: u64) -> Run
         }
     }
 
+    // wall-clock watchdog: a time budget hit means "inconclusive" (exit 2), never a violation
+    {
+        let limit = std::env::var("VERIF_WALL_LIMIT_S").ok().and_then(|s| s.parse::<u64>().ok()).unwrap_or(match tier {
+            Tier::Quick => 1500,
+            Tier::Thorough => 6 * 3600,
+        });
+        let id = id.to_string();
+        std::thread::spawn(move || {
+            std::thread::sleep(std::time::Duration::from_secs(limit));
+            eprintln!("inconclusive: {id} exceeded the wall-clock limit of {limit}s");
+            std::process::exit(2);
+        });
+    }
+
     // 2. generated search
     let total_cases = prop.cases(tier);
     let nworkers = prop.workers().max(1);
